@@ -12,7 +12,7 @@
    says: a commit of thread t, serving request q, took effect on key k; the index record became
    (rev, flag), version rev got value v; pred is the index record it replaced. *)
 From KB Require Import Model.RevSys Model.KeySys Model.C01Cases.
-From KB Require Import Proofs.RevSys Proofs.KeySys Proofs.KeySysLog Proofs.KeySysChain Proofs.KeySysFail Proofs.KeySysJust Proofs.KeySysProps Proofs.SchedCases.
+From KB Require Import Proofs.RevSys Proofs.KeySys Proofs.KeySysLog Proofs.KeySysChain Proofs.KeySysFail Proofs.KeySysJust Proofs.KeySysProps Proofs.SchedCases Proofs.SchedLink Proofs.KeySysSucc Proofs.ProxySound.
 Local Open Scope N_scope.
 
 (* C01_chain. For every key:
@@ -44,6 +44,32 @@ Theorem C01_failure_no_effect : forall cidx0 d0 store s, reach cidx0 d0 store s 
 Proof. exact k_failure_no_effect. Qed.
 Print Assumptions C01_failure_no_effect.
 
+(* the converse: a request answered with success (Succeeded = true, or a repair that wrote) applied exactly one
+   commit between its EInvoke and its answer, and that commit carries the revision of the answer's header.
+   applied_revs t l (Proofs/KeySysSucc.v) = the revisions of thread t's EApplied entries in l down to t's
+   latest EInvoke / EReturn; l01 holds no entry of thread t that is an invoke, a return or an applied commit. *)
+Theorem C01_success_applied_once : forall cidx0 d0 store s, reach cidx0 d0 store s ->
+  forall l1 l0 t r, log s = l1 ++ EReturn t r :: l0 -> resp_succ r = true ->
+  exists x l01 q k a f v p l00,
+    resp_hdr r = Some x /\
+    l0 = l01 ++ EApplied t q k a x f v p :: l00 /\ applied_revs t l00 = [] /\
+    Forall (fun e => match e with EInvoke t0 _ | EReturn t0 _ | EApplied t0 _ _ _ _ _ _ _ => t0 <> t | _ => True end) l01.
+Proof. exact success_applied_once. Qed.
+Print Assumptions C01_success_applied_once.
+
+(* response level: two requests both answered with success applied two different commits (different
+   revisions); if these are on one key they did not replace the same index revision, i.e. two writers
+   conditioned on the same revision are never both answered with success *)
+Theorem C01_no_double_success_responses : forall cidx0 d0 store s, reach cidx0 d0 store s ->
+  forall l2 l1 l0 t1 r1 t2 r2,
+    log s = l2 ++ EReturn t2 r2 :: l1 ++ EReturn t1 r1 :: l0 -> resp_succ r1 = true -> resp_succ r2 = true ->
+  exists x1 x2 q1 k1 a1 f1 v1 p1 q2 k2 a2 f2 v2 p2,
+    resp_hdr r1 = Some x1 /\ resp_hdr r2 = Some x2 /\ x1 <> x2 /\
+    In (EApplied t1 q1 k1 a1 x1 f1 v1 p1) (log s) /\ In (EApplied t2 q2 k2 a2 x2 f2 v2 p2) (log s) /\
+    (k1 = k2 -> forall p b1 b2, p1 = Some (p, b1) -> p2 = Some (p, b2) -> False).
+Proof. exact no_double_success_resp. Qed.
+Print Assumptions C01_no_double_success_responses.
+
 (* the stored records stay well-formed: index (r, flag) => version r exists, is the newest, and is the
    tombstone if flag; every stored revision <= dealt; revisions held by threads in flight are absent
    from the store until their own commit *)
@@ -51,7 +77,9 @@ Theorem C01_store_wf : forall cidx0 d0 store s, reach cidx0 d0 store s -> kinv s
 Proof. exact reach_kinv. Qed.
 Print Assumptions C01_store_wf.
 
-(* C01_failure_justified.
+(* C01_failure_justified_except_conflict_abort (the name says what the hypothesis quiet_label excludes: runs in which
+   an engine reports a conflict abort — Badger / TiKV do so when another writer landed on the key; for those runs
+   the statement is a gap, see props/C01.json).
    Ghost flag `seen s t` (Model/KeySys.v, observe): since t's LInvoke, after some step, t's key differed from
    what t's request expects (differs): create / Update-with-0: the index record is live; update naming p:
    the index record is not (p, live); guarded delete naming p: likewise; unguarded delete: the key is not live.
@@ -68,7 +96,7 @@ Print Assumptions C01_store_wf.
    required; we read "the key differed from the expectation" for an unguarded delete as "the key did not stay
    as the delete found it": alternative 2 below (a commit was applied on its key while it was in flight).
    Everything else is alternative 1. Alternative 3 is exactly the signature of finding C01-F1. *)
-Theorem C01_failure_justified : forall cidx0 d0 store ls,
+Theorem C01_failure_justified_except_conflict_abort : forall cidx0 d0 store ls,
   wf_store d0 store -> no_marker_store store -> Forall quiet_label ls ->
   let s := krun cidx0 ls (kinit d0 store) in
   forall t r, thr s t = PReturn r -> resp_cond_failed r = true ->
@@ -77,10 +105,10 @@ Theorem C01_failure_justified : forall cidx0 d0 store ls,
        \/ (unguarded_delete q = true /\ applied_since t (req_key q) (log s) = true)
        \/ (create_like q = true /\ stamp_since t (req_key q) (log s) = true)).
 Proof. exact failure_justified. Qed.
-Print Assumptions C01_failure_justified.
+Print Assumptions C01_failure_justified_except_conflict_abort.
 
 (* for every run in which no asynchronous rewrite re-stamps the request's key while it is in flight *)
-Theorem C01_failure_justified_except_restamp : forall cidx0 d0 store ls,
+Theorem C01_failure_justified_except_conflict_abort_and_restamp : forall cidx0 d0 store ls,
   wf_store d0 store -> no_marker_store store -> Forall quiet_label ls ->
   let s := krun cidx0 ls (kinit d0 store) in
   forall t r, thr s t = PReturn r -> resp_cond_failed r = true ->
@@ -88,7 +116,7 @@ Theorem C01_failure_justified_except_restamp : forall cidx0 d0 store ls,
       (stamp_since t (req_key q) (log s) = false ->
        seen s t = true \/ (unguarded_delete q = true /\ applied_since t (req_key q) (log s) = true)).
 Proof. exact failure_justified_except_restamp. Qed.
-Print Assumptions C01_failure_justified_except_restamp.
+Print Assumptions C01_failure_justified_except_conflict_abort_and_restamp.
 
 (* the complement is real (finding C01-F1, reproduced on the code): without the third alternative the
    statement is refuted — a creator dealt 11 is refused because the repair re-stamped the tombstone at 12 *)
@@ -108,17 +136,49 @@ Print Assumptions C01_seen_monotone.
 
 (* the oracle lemma for schedule cases. Full statement (not proved, see "gaps"): *)
 Definition C01_oracle_sound_full_statement : Prop :=
-  forall c, sched_valid c -> sched_check c = true -> sched_c01_oracle c = None \/ sched_c01_oracle c = Some 1.
+  forall c, sched_check c = true -> sched_c01_oracle c = None \/ sched_c01_oracle c = Some 1.
+(* validity of a case (distinct thread ids and keys, well-formed initial key states) is decidable and part of
+   sched_check: an invalid case counts as a mismatch, so every case that passes is covered by the theorems *)
+Theorem C01_check_implies_valid : forall c, sched_check c = true -> sched_valid c /\ sched_check_core c = true.
+Proof. exact sched_check_split. Qed.
+Print Assumptions C01_check_implies_valid.
+
 (* proved part: whenever the model reproduces the observation step by step, the observed final dump of every
    key is the image (replay) of a chain of applied commits over the observed initial dump, each link
    satisfying link_ok (names its predecessor, strictly increasing, kind-specific condition) *)
-Theorem C01_oracle_final_dump_chain_partial : forall c, sched_valid c -> sched_check c = true ->
+Theorem C01_checked_case_final_dump_is_chain : forall c, sched_check c = true ->
   exists lg, chain (store_of (sc_init c)) lg /\
     forall k ks, In (k, ks) (sc_final c) -> kstate_eqb (replay (store_of (sc_init c)) lg k) ks = true.
-Proof. exact sched_final_dump_chain. Qed.
-Print Assumptions C01_oracle_final_dump_chain_partial.
+Proof. exact sched_final_dump_chain_checked. Qed.
+Print Assumptions C01_checked_case_final_dump_is_chain.
+
+(* proved clause records_complete: every request of the case got exactly one record *)
+Theorem C01_sched_oracle_records_complete_sound_partial : forall c, sched_check c = true ->
+  records_complete c (case_records c) = true.
+Proof. exact sched_records_complete_sound_checked. Qed.
+Print Assumptions C01_sched_oracle_records_complete_sound_partial.
+
+(* case kind C1Proxy (a conditional write through a follower's proxy whose link loses the reply): the oracle
+   lemma, for every case. Validity (request on key 0, well-formed initial key state, no live stored value and no
+   request value equal to the deletion marker) is part of proxy_check. Whenever the model reproduces the
+   observation and the client was told "condition failed", the key differed from the request's expectation when
+   the request came in and the observed final key state equals the initial one. *)
+Theorem C01_proxy_oracle_sound : forall c, proxy_check c = true -> proxy_ok c = true.
+Proof. exact proxy_oracle_sound. Qed.
+Print Assumptions C01_proxy_oracle_sound.
+(* the invariant behind it, for every run: every applied commit belongs to a request that is on its way to a
+   success answer or has been answered with success *)
+Theorem C01_applied_has_success : forall cidx0 s l, kinv s -> tinvS s -> tinvS (kstep cidx0 s l).
+Proof. exact tinvS_step. Qed.
+Print Assumptions C01_applied_has_success.
 
 (* ----- non-vacuity ----- *)
+Example C01_proxy_ex :
+  let c := {| px_d0 := 10; px_init := {| k_idx := Some (5, false); k_vers := [(5, [1]); (3, [2])] |};
+              px_req := RqUpdate 0 [9] 3; px_resp := RespUpdate 11 false (Some ([1], 5));
+              px_final := {| k_idx := Some (5, false); k_vers := [(5, [1]); (3, [2])] |} |} in
+  proxy_check c = true /\ resp_cond_failed (px_resp c) = true /\ proxy_ok c = true.
+Proof. vm_compute. repeat split; reflexivity. Qed.
 Example C01_ex_reach : reach true 10 ex_store ex_state.
 Proof. exact ex_reach. Qed.
 (* in the example history thread 0's update naming 5 applied; thread 1's unconditional delete had read
@@ -132,7 +192,21 @@ Example C01_ex_state :
   /\ thr ex_state 1 = PReturn (RespDelete 12 false (Some ([9], 12))).
 Proof. vm_compute. repeat split; reflexivity. Qed.
 
-(* the hypotheses of C01_failure_justified on the example history: thread 1's unguarded delete is answered
+(* C01_success_applied_once on the example history: thread 0's successful update (header 12) applied exactly
+   the commit at 12; C01_no_double_success / no_marker_store / C01_seen_monotone have their hypotheses met *)
+Example C01_ex_success_applied_once :
+  exists l0, log ex_state = [] ++ EReturn 0 (RespUpdate 12 true None) :: l0 /\ resp_succ (RespUpdate 12 true None) = true
+             /\ applied_revs 0 l0 = [12].
+Proof. eexists. split; [vm_compute; reflexivity|]. split; reflexivity. Qed.
+Example C01_ex_no_marker_store : no_marker_store ex_store.
+Proof. exact ex_no_marker_store. Qed.
+Example C01_ex_seen_monotone :
+  let s := krun true [LInvoke 0 (RqCreate 0 [9])] (kinit 10 ex_store) in
+  rpanic (rs s) = false /\ cur s 0 = Some (RqCreate 0 [9]) /\ seen s 0 = true
+  /\ cur (kstep true s (LDeal 0)) 0 = Some (RqCreate 0 [9]) /\ seen (kstep true s (LDeal 0)) 0 = true.
+Proof. vm_compute. repeat split; reflexivity. Qed.
+
+(* the hypotheses of C01_failure_justified_except_conflict_abort on the example history: thread 1's unguarded delete is answered
    "condition failed" (alternative 2: thread 0's update landed on its key), no marker values, no aborts *)
 Example C01_ex_justified :
   Forall quiet_label ex_labels /\ thr ex_state 1 = PReturn (RespDelete 12 false (Some ([9], 12)))
